@@ -21,6 +21,7 @@ RULE = (
     'a cell face or contains a hostile coordinate; distinct = SHA-1 of the input array.'
 )
 RULE += ' Added in rounds 8-10: slices / split parts not starting at frame 0 examined as trajectories of their own; chunks joined with extend() (the second chunk may repeat the previous last frame); a sixth of the cases shifted by up to thousands of cells.'
+RULE += ' Round 13: a fifth of the walks also as variable-cell trajectories (one lattice per frame): positions, displacements, cumulative displacements, single-frame access.'
 RULE += ' Round 12 (thorough tier; quick with GV_HUGE=1): one trajectory of 11.3-12 million atom-frames (more than 256 MiB of coordinates): displacement bound, running sum against every frame, cumulative displacements against the unwrapped walk, position round trip.'
 ASSUMPTIONS = [
     'true per-step displacements stay below 0.4999 cell per coordinate (a step of exactly half a cell has no defined minimum image)',
@@ -265,6 +266,18 @@ def run_unit(unit, rng, ctx):
             order_s = [str(x_) for x_ in rng.permutation(['displacements', 'positions', 'cumulative', 'distances'])] + ['positions']
             examine(part, Xs, Us, m, ctx, what + f' [sub-trajectory {origin}]', order_s)
             ctx.count('sub_trajectories_not_starting_at_frame_0')
+    # a variable-cell run (one lattice per frame, as the loaders build with constant_lattice=False) is a periodic
+    # trajectory too: every fractional clause applies (Cartesian distances need one cell and are left out)
+    if unit['i'] % 5 == 2:
+        from gemdat import Trajectory
+
+        lat_t = np.stack([m * (1 + 0.02 * np.sin(0.3 * t_ + 1.0)) for t_ in range(T)])
+        Xv = X1 if mode != 'displacement' else U
+        tv = Trajectory(species=gen.species_objects(names), coords=Xv.copy(), lattice=lat_t, constant_lattice=False, time_step=1e-15, metadata={'temperature': 300.0})
+        order_v = [str(x_) for x_ in rng.permutation(['positions', 'displacements', 'cumulative'])] + ['positions']
+        examine(tv, Xv, U, m, ctx, what + ' [variable cell]', order_v)
+        frames_check(tv, Xv, ctx, what + ' [variable cell]', rng)
+        ctx.count('variable_cell_trajectories')
     # a copy obtained through pickle / deepcopy / the cache file of an object that is currently in either storage
     # mode is the same periodic trajectory
     if unit['i'] % 4 == 3:
